@@ -21,7 +21,7 @@ ASSUMPTIONS = ["reference ed25519 / canonical serializer / RFC 4880 digest are c
 HERE = os.path.dirname(os.path.dirname(os.path.dirname(os.path.abspath(__file__))))
 FIX = os.path.join(HERE, "fixtures")
 
-N = {"quick": 1400, "thorough": 36000}
+N = {"quick": 4000, "thorough": 120000}
 
 CONFIGS = [
     {"name": "default"},
@@ -37,10 +37,10 @@ CONFIGS = [
 
 def plan(tier, seed):
     specs = []
-    nshard = 8 if tier == "quick" else 14
+    nshard = 10 if tier == "quick" else 24
     for _ in range(nshard):
         specs.append({"kind": "env", "count": N[tier] // nshard, "config": "default"})
-    per = 60 if tier == "quick" else 1200
+    per = 150 if tier == "quick" else 3000
     for c in CONFIGS[1:]:
         s = {"kind": "env", "count": per, "config": c["name"]}
         s.update({k: v for k, v in c.items() if k != "name"})
